@@ -257,3 +257,9 @@ End copyset.
 (** today's CopySet.__iter__ and the plain-set iteration it replaces *)
 Definition copyset_iter_today : iprog := [ISnapshot; IYieldFrom ECur; IYieldFrom EDiffLiveCur].
 Definition plain_set_iter : iprog := [IYieldFrom ELive].
+
+Definition iprog_is_today (p : iprog) : bool :=
+  match p with
+  | [ISnapshot; IYieldFrom ECur; IYieldFrom EDiffLiveCur] => true
+  | _ => false
+  end.
